@@ -1,10 +1,10 @@
 package main
 
 import (
-	"hash/crc32"
 	"bytes"
 	"encoding/binary"
 	"fmt"
+	"hash/crc32"
 	"os"
 	"path/filepath"
 	"strings"
@@ -302,6 +302,13 @@ func c07Gen(c *Ctx) {
 			h["start"] = hx(encodeList(tX509, nil, len(u.data[4])+16, [][2][]byte{{u.owners[0], u.data[4]}, {u.owners[0], u.data[6]}, {u.owners[0], u.data[4]}, {u.owners[0], u.data[4]}}))
 			pre = []interface{}{fmt.Sprintf("R,%s,%s,%s", hx(tX509), o0, hx(u.data[4])), "E", fmt.Sprintf("R,%s,%s,%s", hx(tX509), o0, hx(u.data[4])), "E"}
 		}
+		if i%12 == 11 {
+			// decoded lists without entries keep their SignatureSize; list-level appends to them
+			// (matching and not matching that size) must keep the size fields consistent
+			h["start"] = hx(append(encodeList(tSHA256, nil, 48, nil), encodeList(tX509, nil, 100, nil)...))
+			pre = []interface{}{fmt.Sprintf("LA,0,%s:%s", o0, hx(u.data[0])), "E", fmt.Sprintf("LA,1,%s:%s", o1, hx(u.data[4])), "E",
+				fmt.Sprintf("LA,1,%s:%s", o0, hx(u.data[6])), "E"}
+		}
 		if i%12 == 5 {
 			pre = []interface{}{fmt.Sprintf("LM,%s,-", hx([][]byte{tSHA256, tX509}[(i/12)%2])), "E"} // known finding F20
 		}
@@ -390,7 +397,7 @@ func c08Gen(c *Ctx) {
 
 func init() {
 	register("C07", &PropDef{
-		Rule:   "well-formed streams: 0..6 (thorough 12) lists over X.509 (any certificate size, 0-5 entries), SHA-256 (up to 40 entries), externally-managed, plus valid-but-undecodable / unknown / headered lists in a quarter of the streams; the .esl files and captured variables of the repository; databases built by random append/remove/append-list histories and then encoded and decoded, two thirds of them starting with a list that holds one entry more than once (decoded [A,B,A] / [a,b,a,a], or built by SignatureList.AppendBytes from the DER and the PEM form of one certificate) or with PEM handed to the list-level API, followed by removals of that entry. Every stream is decoded through a bytes.Reader, a bytes.Buffer or a one-byte-at-a-time reader (chosen by a checksum of the input) over a private copy that is overwritten before the decoded database is inspected. Non-trivial: non-empty stream; distinct = distinct byte strings / histories.",
+		Rule:   "well-formed streams: 0..6 (thorough 12) lists over X.509 (any certificate size, 0-5 entries), SHA-256 (up to 40 entries), externally-managed, plus valid-but-undecodable / unknown / headered lists in a quarter of the streams; the .esl files and captured variables of the repository; databases built by random append/remove/append-list histories and then encoded and decoded, two thirds of them starting with a list that holds one entry more than once (decoded [A,B,A] / [a,b,a,a], or built by SignatureList.AppendBytes from the DER and the PEM form of one certificate) or with PEM handed to the list-level API, followed by removals of that entry; and list-level appends to decoded lists that hold no entry but carry a signature size. Every stream is decoded through a bytes.Reader, a bytes.Buffer, a one-byte-at-a-time reader, a data-with-EOF reader or a half-count reader (chosen by a checksum of the input) over a private copy that is overwritten before the decoded database is inspected. Non-trivial: non-empty stream; distinct = distinct byte strings / histories.",
 		Assume: []string{"`handled` list types are X.509, SHA-256 (size 48) and externally-managed (size 17) with an empty header, as in the decoder's switch"},
 		Eval:   c07Eval, Gen: c07Gen,
 	})
